@@ -56,7 +56,9 @@ SCHEMES = {
                    WH_OPS | {'reb_saba_corrector_step'},
                    {'reb_integrator_saba_synchronize', 'reb_saba_stages'},
                    {'r.ri_saba.keep_unsynchronized': 0, 'r.ri_whfast.recalculate_coordinates_this_timestep': 0,
-                    'r.ri_whfast.coordinates': 0, 'r.N_var_config': 0, 'r.calculate_megno': 0},
+                    'r.ri_whfast.coordinates': 0, 'r.N_var_config': 0, 'r.calculate_megno': 0,
+                    # WHFast's own flag is never written while SABA runs; it keeps its initial value (reb_simulation_init / whfast reset)
+                    'r.ri_whfast.is_synchronized': 1},
                    dict(WH_GROUPS, corrector={'reb_saba_corrector_step'})),
     'eos': Scheme('eos', 'reb_integrator_eos_part1', 'reb_integrator_eos_part2', 'reb_integrator_eos_synchronize',
                   {'reb_integrator_eos_drift_shell0', 'reb_integrator_eos_interaction_shell0'},
